@@ -145,30 +145,60 @@ def check(model, R, tier):
 
 
 # ------------------------------------------------------------------------------------------------ FORMULA
+def _spellings(p, i, v):
+    """all recognised spellings of the configuration predicates, bound to the valuation v"""
+    wd, mom, buf, nes, mx = v.get('wd', False), v.get('mom', False), v.get('buf', False), v.get('nesterov', False), v.get('maximize', False)
+    d = {'%s.requires_grad' % p: True, '%s._grad is None' % p: False, '%s._grad is not None' % p: True, '%s.has_grad()' % p: True,
+         'self.maximize': mx, 'self.nesterov': nes}
+    for txt, val in (('self.weight_decay', wd), ('self.momentum', mom)):
+        d[txt] = val
+        d[txt + ' != 0'] = val
+        d[txt + ' == 0'] = not val
+        d[txt + ' > 0'] = val
+        d['0 != ' + txt] = val
+    b = 'self.momentum_buffer[%s]' % i
+    d[b + ' is not None'] = buf
+    d[b + ' is None'] = not buf
+    return d
+
+
 def formula(model, R, cls, f, lp, ivar, pvar):
+    from sa.peval import PE, Opaque
     q = f.qualname
-    p, i = pvar, ivar
-    atoms = {'%s._grad' % p: 'g', '%s.data' % p: 'theta', 'self.lr': 'lr', 'self.weight_decay': 'wd', 'self.momentum': 'mu', 'self.dampening': 'tau',
-             'self.momentum_buffer[%s]' % i: 'buf', 'self.m1[%s]' % i: 'm1', 'self.m2[%s]' % i: 'm2', 'self.beta1': 'b1', 'self.beta2': 'b2', 'self.epsilon': 'eps', 'self.t': 't'}
-    A = {v: P.atom(v) for v in atoms.values()}
-    frozen_guards = {'not %s.requires_grad or %s._grad is None' % (p, p): False, '%s.requires_grad' % p: True, '%s._grad is None' % p: False, '%s._grad is not None' % p: True}
-    if cls == 'SGD':
-        names = ['maximize', 'wd', 'mom', 'buf', 'nesterov']
-    elif cls == 'Adam':
-        names = ['maximize', 'wd']
-    else:
-        names = ['maximize']
+    p, i = 'p', 'i'         # canonical aliases of the loop variables (see loop_hook)
+    atoms = {'p._grad': P.atom('g'), 'p.data': P.atom('theta'), 'self.lr': P.atom('lr'), 'self.weight_decay': P.atom('wd'), 'self.momentum': P.atom('mu'), 'self.dampening': P.atom('tau'),
+             'self.momentum_buffer[i]': P.atom('buf'), 'self.m1[i]': P.atom('m1'), 'self.m2[i]': P.atom('m2'), 'self.beta1': P.atom('b1'), 'self.beta2': P.atom('b2'),
+             'self.epsilon': P.atom('eps'), 'self.t': P.atom('t')}
+    A = {v.canon(): v for v in atoms.values()}
+
+    def loop_hook(pe, s, env):
+        t = s.target
+        if 'self.parameters' not in norm(s.iter):
+            return False
+        if isinstance(t, ast.Tuple) and len(t.elts) == 2 and all(isinstance(e, ast.Name) for e in t.elts):
+            env[t.elts[0].id] = Opaque('@i')
+            env[t.elts[1].id] = Opaque('@p')
+            return True
+        if isinstance(t, ast.Name):
+            env[t.id] = Opaque('@p')
+            return True
+        return False
+    names = {'SGD': ['maximize', 'wd', 'mom', 'buf', 'nesterov'], 'Adam': ['maximize', 'wd']}.get(cls, ['maximize'])
     for vals in itertools.product((False, True), repeat=len(names)):
         v = dict(zip(names, vals))
-        preds = dict(frozen_guards)
-        preds.update({'self.maximize': v.get('maximize', False), 'self.weight_decay != 0': v.get('wd', False), 'self.weight_decay == 0': not v.get('wd', False),
-                      'self.momentum != 0': v.get('mom', False), 'self.momentum == 0': not v.get('mom', False),
-                      'self.momentum_buffer[%s] is not None' % i: v.get('buf', False), 'self.momentum_buffer[%s] is None' % i: not v.get('buf', False),
-                      'self.nesterov': v.get('nesterov', False)})
-        S = Subst(model, f, atoms, preds)
-        S.run(lp.body)
-        got_theta = S.mem.get('%s.data' % p, A['theta'])
-        # ---- reference
+        pe = PE(model, atoms=atoms, preds=_spellings(p, i, v), loop_hook=loop_hook)
+        try:
+            outs = pe.paths(f, {f.pos_params[0]: Opaque('@self')})
+        except Incomplete as e:
+            R.incomplete_at('C08.FORMULA', q, str(e))
+            return
+        label = '%s[%s]' % (cls, ','.join('%s=%d' % (k, v[k]) for k in names))
+        extra = sorted({t for o in outs for t, _ in o.conds} - set(pe.preds))
+        if len(outs) != 1:
+            R.incomplete_at('C08.FORMULA', q, '%s: the update depends on predicates this rule has no valuation for: %s' % (label, extra))
+            return
+        o = outs[0]
+        got_theta = o.mem.get('p.data', A['theta'])
         g = -A['g'] if v.get('maximize') else A['g']
         ref_state = {}
         if cls == 'SGD':
@@ -176,7 +206,7 @@ def formula(model, R, cls, f, lp, ivar, pvar):
                 g = g + A['wd'] * A['theta']
             if v['mom']:
                 buf = A['mu'] * A['buf'] + (1 - A['tau']) * g if v['buf'] else g
-                ref_state['self.momentum_buffer[%s]' % i] = buf
+                ref_state['self.momentum_buffer[i]'] = buf
                 g = g + A['mu'] * buf if v['nesterov'] else buf
             ref_theta = A['theta'] - A['lr'] * g
         else:
@@ -188,15 +218,15 @@ def formula(model, R, cls, f, lp, ivar, pvar):
                 theta0 = A['theta'] - A['lr'] * A['wd'] * A['theta']
             m = A['b1'] * A['m1'] + (1 - A['b1']) * g
             s2 = A['b2'] * A['m2'] + (1 - A['b2']) * g * g
-            ref_state['self.m1[%s]' % i] = m
-            ref_state['self.m2[%s]' % i] = s2
+            ref_state['self.m1[i]'] = m
+            ref_state['self.m2[i]'] = s2
             mh = m / (1 - A['b1'] ** A['t'])
             vh = s2 / (1 - A['b2'] ** A['t'])
             ref_theta = theta0 - A['lr'] * mh / (sqrt(vh) + A['eps'])
-        label = '%s[%s]' % (cls, ','.join('%s=%d' % (k, v[k]) for k in names))
-        R.ob('C08.FORMULA', q, label + ' theta', got_theta == ref_theta,
-             'parameter update differs from the published rule under %s: got %s ; reference %s' % (v, got_theta.canon()[:160], ref_theta.canon()[:160]), f.loc)
+        ok = isinstance(got_theta, P) and got_theta == ref_theta
+        R.ob('C08.FORMULA', q, label + ' theta', ok,
+             'parameter update differs from the published rule under %s: got %s ; reference %s' % (v, got_theta.canon()[:160] if isinstance(got_theta, P) else got_theta, ref_theta.canon()[:160]), f.loc)
         for k, want in ref_state.items():
-            got = S.mem.get(k)
-            R.ob('C08.FORMULA', q, label + ' ' + k, got is not None and got == want,
-                 'state update of %s differs from the published rule under %s: got %s ; reference %s' % (k, v, got.canon()[:120] if got is not None else None, want.canon()[:120]), f.loc)
+            got = o.mem.get(k)
+            R.ob('C08.FORMULA', q, label + ' ' + k, isinstance(got, P) and got == want,
+                 'state update of %s differs from the published rule under %s: got %s ; reference %s' % (k, v, got.canon()[:120] if isinstance(got, P) else got, want.canon()[:120]), f.loc)
